@@ -521,6 +521,17 @@ func (nak *NotAKnotCubic) Fit(xs, ys []float64) error {
 		a.SetBand(m, m, dxInner)
 		a.SetBand(m, m-1, -dxInner-dxOuter)
 		a.SetBand(m, m-2, dxOuter)
+	} else {
+		// With a single interior node the two not-a-knot conditions
+		// coincide and leave one degree of freedom. Requiring a vanishing
+		// third derivative on both intervals (m₀ = m₁ = m₂) selects the
+		// parabola through the three points.
+		h := xs[2] - xs[0]
+		a.SetBand(0, 0, h)
+		a.SetBand(0, 1, -h)
+		a.SetBand(0, 2, 0)
+		a.SetBand(2, 1, -h)
+		a.SetBand(2, 2, h)
 	}
 	x := mat.NewVecDense(n, nil)
 	err := x.SolveVec(a, b)
